@@ -124,8 +124,14 @@ def enumerate_specs(tier):
                 elif (hi + fi) % 5 == 2:
                     setup = "two"
                 elif (hi + fi) % 5 == 4 and h.count("b") >= 2:
-                    setup = "late"
+                    setup = "late" if (hi + fi) % 2 else "late0"
                 specs.append({"opt": opt, "flags": fl, "history": h, "setup": setup})
+    # the set of parameters a step updates changes between steps (state-bearing flag sets only)
+    for opt, flagsets in (("SGD", [f for f in SGD_FLAGS if f["momentum"] != 0][:3]), ("Adam", ADAM_FLAGS[:2]), ("AdamW", ADAM_FLAGS[:2])):
+        for fl in flagsets:
+            for setup in ("late", "late0"):
+                for h in ("bsbs",) + (("bsbsbs", "bsbzbs") if tier != "quick" else ()):
+                    specs.append({"opt": opt, "flags": fl, "history": h, "setup": setup})
     for opt in ("SGD", "Adam", "AdamW"):
         specs.append({"opt": opt, "flags": {}, "history": "bs", "setup": "one", "defaults": True})
         specs.append({"opt": opt, "flags": {}, "history": "bsbs", "setup": "two", "defaults": True})
@@ -176,7 +182,7 @@ class Case:
         out = E.Outcome()
         sp = self.spec
         h = self.hyper(env)
-        shapes = [(2,)] if sp["setup"] == "one" else [(2,), (1, 2)]
+        shapes = [(2,)] if sp["setup"] == "one" else ([(2,), (2,)] if sp["setup"] == "late0" else [(2,), (1, 2)])
         params, refs, arrays = [], [], []
         for i, shp in enumerate(shapes):
             a = env.arr("p%d" % i, shp)
@@ -197,13 +203,16 @@ class Case:
                       maximize=h["maximize"])
         # two: both parameters receive (different) gradients in every backward; late: the second one only from the second
         # backward on, so its per-parameter state (momentum buffer, moments, step count) starts a step later
-        reached = [True] + ([sp["setup"] in ("two", "late")] if len(shapes) > 1 else [])
+        # late0: the *first* parameter joins a step after the second, so the set of parameters a step updates changes ahead of
+        # an updated one (per-parameter state must follow the parameter, not its position among the active ones)
+        reached = [True] + ([sp["setup"] in ("two", "late", "late0")] if len(shapes) > 1 else [])
         nb = 0
         for step_i, act in enumerate(sp["history"]):
             if act == "b":
                 loss = None
                 for i, (p, r) in enumerate(zip(params, refs)):
-                    if not reached[i] or not r.requires_grad or (sp["setup"] == "late" and i == 1 and nb == 0):
+                    if not reached[i] or not r.requires_grad or (sp["setup"] == "late" and i == 1 and nb == 0) \
+                            or (sp["setup"] == "late0" and i == 0 and nb == 0):
                         continue
                     c = env.arr("c%d_%d" % (nb, i), p.shape, lo=-2, hi=2)
                     term = (p * Tn(c)).sum()
